@@ -15,6 +15,8 @@
 package zzverif
 
 import (
+	"strconv"
+	"sort"
 	"encoding/json"
 	"fmt"
 	"os"
@@ -397,6 +399,63 @@ func JSONBody(v interface{}, malformed bool) []byte {
 		panic(err)
 	}
 	return b
+}
+
+// B64SpareBitsVariant returns the unpadded base64url text v with the unused low bits of its
+// last character changed - another spelling of the same bytes, which only a Strict decoder
+// refuses - or "" when v has no spare bits (its length is a multiple of 4). Under the
+// executor: some other text of the same length that the default decoder decodes like v.
+func B64SpareBitsVariant(v string) string {
+	const alphabet = "ABCDEFGHIJKLMNOPQRSTUVWXYZabcdefghijklmnopqrstuvwxyz0123456789-_"
+	if len(v)%4 == 0 || len(v) == 0 {
+		return ""
+	}
+	i := strings.IndexByte(alphabet, v[len(v)-1])
+	if i < 0 {
+		return ""
+	}
+	return v[:len(v)-1] + string(alphabet[i^1])
+}
+
+// JSONBodyMistyped is the JSON of v with one member given a value of the wrong type (the
+// first number becomes a string, or else the first string a number): a well-formed document
+// that encoding/json decodes member by member and then reports as an error.
+func JSONBodyMistyped(v interface{}) []byte {
+	b, err := json.Marshal(v)
+	if err != nil {
+		panic(err)
+	}
+	var m map[string]interface{}
+	if json.Unmarshal(b, &m) != nil || len(m) == 0 {
+		return []byte(`{"mistyped":`)
+	}
+	keys := make([]string, 0, len(m))
+	for k := range m {
+		keys = append(keys, k)
+	}
+	sort.Strings(keys)
+	done := false
+	for _, k := range keys {
+		if f, ok := m[k].(float64); ok {
+			m[k] = strconv.FormatFloat(f, 'f', -1, 64)
+			done = true
+			break
+		}
+	}
+	if !done {
+		for _, k := range keys {
+			if _, ok := m[k].(string); ok {
+				m[k] = 12345
+				done = true
+				break
+			}
+		}
+	}
+	if !done {
+		return []byte(`{"mistyped":`)
+	}
+	out, _ := json.Marshal(m)
+	return out
 }
 
 // Observe records a value for translation validation (selftest): the native run and
